@@ -9,18 +9,18 @@ from typing import Any
 
 
 def _make_key(method):
-    method = method.func if isinstance(method, partial) else method
+    if (
+        isinstance(method, partial)
+        or hasattr(method, "__signature__")
+        or hasattr(method, "__wrapped__")
+    ):
+        # the signature of these is not a function of a code object alone: do not cache
+        return None
     method = method.fget if isinstance(method, property) else method
     if isinstance(method, MethodType):
-        return hash(
-            (
-                method.__qualname__,
-                method.__self__.__class__.__name__,
-                method.__code__.co_varnames,
-            )
-        )
+        return ("bound", method.__code__)
     else:
-        return hash((method.__qualname__, method.__code__.co_varnames))
+        return ("function", method.__code__)
 
 
 def signature_cache(user_function):
@@ -29,6 +29,8 @@ def signature_cache(user_function):
 
     def cached_function(cls, method):
         key = _make_key(method)
+        if key is None:
+            return user_function(cls, method)
         sig = cache_get(key)
         if sig is None:
             sig = user_function(cls, method)
